@@ -211,6 +211,23 @@ static void config_case(uint32_t k, uint32_t r, uint32_t N1, uint32_t seed, int 
 			if (!M->all_source_cols_even) rep_note("claim true although the RFC matrix has an odd-weight source column: k=%u r=%u N1=%u seed=%u (the symbol was still checked directly)", k, r, N1, seed);
 		} else { rep_count("false_claims_observed", 1); if (have_bb && zero_id) rep_count("false_claim_but_symbol_zero_anyway", 1); }
 	}
+	if (g_for15 && !(N1 & 1) && k + r <= 3000 && have_bb) {
+		/* the claim over the life of a decoder session: every repair symbol and no source (iterative decoding stalls, of_finish_decoding
+		 * goes through Gaussian elimination and releases the matrix), then a second one with everything but one source */
+		cfg_t c2 = c; c2.L = 4; block_t b; const char *sv = g_prop; g_prop = "";
+		int rc = block_build(&b, &c2, PAY_RANDOM, rng, 0, -1); g_prop = sv;
+		if (rc == 0) {
+			uint32_t *sub = malloc((size_t)(k + r + 1) * sizeof *sub), m = 0;
+			for (uint32_t e = k; e < k + r; e++) sub[m++] = e;
+			hist_t h1 = { (int)rng_below(rng, 2), 1, 0, (int)rng_below(rng, 2), 0, m, sub, (int)(k + r), 0, 0 }; hres_t res;
+			run_history(&b, &h1, 0, &res);
+			m = 0; for (uint32_t e = 1; e < k + r; e++) sub[m++] = e;
+			hist_t h2 = { 0, 1, 0, 0, 0, m, sub, (int)(k + r), 0, 0 };
+			run_history(&b, &h2, 0, &res);
+			free(sub);
+		}
+		block_free(&b);
+	}
 	int nontriv = g_for15 ? (ce == 1 || cd == 1) : 1;
 	if (M->extra_added) rep_sample("extra-entries-added"); else if (!(N1 & 1)) rep_sample("even-N1-no-extra"); else rep_sample("odd-N1");
 	rfc5170_free(M); rows_free(&E); rows_free(&D); rows_free(&B);
